@@ -97,6 +97,27 @@ def multiplier_parity(ctx, rep, clause):
            'no return combines .val with .mult: one calculator would ignore `^n`', program.func(fq).loc(), clause)
 
 
+def unwrap_sites(ctx, rep, clause):
+    """the resolvers are handed the Mod object (value and multiplier), never the bare .val -- except for static
+    rules, whose multiplier the parser restricts to 1"""
+    program = ctx.program
+    n = 0
+    for fq, callee in ((MASS, 'mod_mass'), (SEQ_COMP, 'mod_comp')):
+        f = program.func(fq)
+        static_blocks = [x for x in walk_own(f.node) if isinstance(x, ast.If) and 'has_static_mods' in norm_stmt(x.test)]
+        for node in walk_own(f.node):
+            if isinstance(node, ast.Call) and isinstance(node.func, ast.Name) and node.func.id == callee and node.args:
+                n += 1
+                a = node.args[0]
+                bare = isinstance(a, ast.Attribute) and a.attr == 'val'
+                in_static = any(node in list(ast.walk(b)) for b in static_blocks)
+                ob(rep, 'SIB-mult', fq, f'`{norm_stmt(node)}` passes the modification with its multiplier',
+                   (not bare) or in_static, 'Mod object' if not bare else 'static rule (multiplier restricted to 1)',
+                   f'`{norm_stmt(node)}` unwraps .val before the resolver sees the multiplier: `[X]^2` at this position '
+                   f'is counted once by this calculator and twice by the other', f.loc(node), clause)
+    rep.floor('SIB-mult', 'resolver call sites in the two accumulators', n, 16)
+
+
 def definition_pairing(ctx, rep, clause):
     program = ctx.program
     f = program.func('peptacular.chem.chem_calc:estimate_comp')
@@ -153,5 +174,6 @@ def check(ctx, rep):
     n = add_fwd(rep, obs, 'C03d')
     rep.floor('FWD', 'forwarding sites between the two calculators', n, 20)
     multiplier_parity(ctx, rep, 'C03e')
+    unwrap_sites(ctx, rep, 'C03e')
     definition_pairing(ctx, rep, 'C03f')
     C10.dispatch_parity(ctx, rep, 'C03h')
